@@ -50,6 +50,7 @@ func effective(con *Contract, b *Behaviour) *Behaviour {
 	e.AssignsAny = con.Common.AssignsAny || b.AssignsAny
 	e.Panics = append(append([]*Clause{}, con.Common.Panics...), b.Panics...)
 	e.Insts = append(append([]*Clause{}, con.Common.Insts...), b.Insts...)
+	e.FinalHeap = append(append([]string{}, con.Common.FinalHeap...), b.FinalHeap...)
 	for k, v := range con.Common.Loops {
 		cp := *v
 		e.Loops[k] = &cp
@@ -199,6 +200,34 @@ func (e *Engine) VerifyUnit(u *Unit) (res *UnitResult) {
 			Note: "calls with unknown effects: " + strings.Join(names, ", ") + " -- the contract must say `assigns anything`"})
 	}
 	fx.addAxioms(u.Con.Pkg)
+	if len(fx.beh.FinalHeap) > 0 {
+		if len(fx.beh.Assigns) > 0 || fx.beh.AssignsAny {
+			res.Err = "finalheap needs `assigns nothing` (the unit must not change objects that existed on entry)"
+			return res
+		}
+		for i, r := range fx.rets {
+			for _, ax := range fx.e.axioms {
+				if ax.Lemma || ax.Manual {
+					continue
+				}
+				ok := false
+				for _, pre := range fx.beh.FinalHeap {
+					if strings.HasPrefix(ax.Name, pre) {
+						ok = true
+					}
+				}
+				if !ok {
+					continue
+				}
+				env := &SpecEnv{fx: fx, pkg: ax.Pkg, vars: map[string]specVal{}, st: r.st, where: "axiom " + ax.Name + " at return"}
+				if ax.Pkg == "" {
+					env.pkg = u.Con.Pkg
+				}
+				fx.c.Axiom(fmt.Sprintf("axiom %s over the heap at return %d", ax.Name, i), Implies(r.st.guard, env.boolExpr(ax.Expr)))
+			}
+		}
+		fx.trusted("finalheap " + strings.Join(fx.beh.FinalHeap, ",") + ": these axioms are also read over the heap at each return (objects built by this unit)")
+	}
 	res.Obls = c.obls
 	for ax := range fx.lemmasUsed {
 		res.Lemmas = append(res.Lemmas, ax)
